@@ -22,20 +22,20 @@ func init() { register("fakequeue", fakequeueMain) }
 const dblScale = 1000 // doubles are logged as integers (thousandths); slack 1 covers the rounding
 
 type fqVal struct {
-	ID     string `json:"id"`
-	Kind   string `json:"kind"`
-	Ts     int64  `json:"ts"`
-	Dmin   int64  `json:"dmin"`
-	Dmax   int64  `json:"dmax"`
-	Repeat int32  `json:"repeat"`
-	Val    int64  `json:"val"`
-	Lo     int64  `json:"lo"`
-	Hi     int64  `json:"hi"`
-	Dlo    int64  `json:"dlo"`
-	Dhi    int64  `json:"dhi"`
+	ID     string  `json:"id"`
+	Kind   string  `json:"kind"`
+	Ts     int64   `json:"ts"`
+	Dmin   int64   `json:"dmin"`
+	Dmax   int64   `json:"dmax"`
+	Repeat int32   `json:"repeat"`
+	Val    int64   `json:"val"`
+	Lo     int64   `json:"lo"`
+	Hi     int64   `json:"hi"`
+	Dlo    int64   `json:"dlo"`
+	Dhi    int64   `json:"dhi"`
 	Opts   []int64 `json:"opts"`
-	Random bool   `json:"random"`
-	Pos    int    `json:"pos"`
+	Random bool    `json:"random"`
+	Pos    int     `json:"pos"`
 }
 
 // content token of an emitted value, as an integer
